@@ -790,6 +790,78 @@ def s12(prog, chk):
     chk.floor("S12", n, 3)
 
 
+def s13(prog, chk, tier="quick"):
+    """S13 - the relaxation of the Gibbs bounds is over when the last iteration runs.  `AGibbs::_getBoundsDecay(iter, &vmin, &vmax)` widens the
+    interval of a datum during the burning stage; the values of the LAST iteration are the ones stored, so for every pair (nburn, niter) the
+    function must leave the bounds alone at iter = niter - 1 (and never divide by zero).  Decided by evaluating the function body exactly
+    (rational arithmetic, rules/c18.py interpreter) on every pair of a small box: the function only compares and scales by iter / nburn."""
+    from fractions import Fraction
+    from c18 import Interp2, Obj
+    from e6_abseval import Return, Unsupported
+    f = prog.fn("AGibbs::_getBoundsDecay")
+    run = prog.fn("AGibbs::run")
+    chk.analysed(f)
+    # the last iteration is getNiter() - 1 (read from the loop of AGibbs::run)
+    loops = [L for L in run.walk() if L["k"] == "For" and L["c"][1] is not None and "getNiter" in show(L["c"][1]) and "<" in show(L["c"][1])]
+    chk.ob("S13", "AGibbs::run iterates `iter < getNiter()`", run.loc(loops[0]) if loops else run.loc(), bool(loops),
+           detail=None if loops else "the iteration loop of AGibbs::run is not recognised any more: re-read what the last iteration is", key="S13|loop")
+
+    class I(Interp2):
+        def ev(self, n):
+            if n is not None and n["k"] == "UnOp" and n.get("op") == "*":
+                cell = Interp2.ev(self, n["c"][0])
+                if isinstance(cell, list):
+                    return cell[0]
+                raise Unsupported("dereference")
+            return Interp2.ev(self, n)
+
+        def run(self, n):
+            if n is not None and n["k"] == "Assign" and n["c"][0] is not None and n["c"][0]["k"] in ("UnOp", "Paren"):
+                t = n["c"][0]
+                while t["k"] == "Paren":
+                    t = t["c"][0]
+                if t["k"] == "UnOp" and t.get("op") == "*":
+                    cell = Interp2.ev(self, t["c"][0])
+                    v = self.ev(n["c"][1])
+                    if n.get("op") != "=" or not isinstance(cell, list):
+                        raise Unsupported("store through a pointer")
+                    cell[0] = v
+                    return
+            return Interp2.run(self, n)
+
+        def hook(self, n, _self):
+            short = (n.get("callee") or "").split("::")[-1]
+            a = call_args(n)
+            if short in ("MIN", "MAX") and len(a) == 2:
+                x, y = self.ev(a[0]), self.ev(a[1])
+                return min(x, y) if short == "MIN" else max(x, y)
+            return Interp2.hook(self, n, _self)
+    box = 6 if tier == "quick" else 12
+    n = 0
+    bad = None
+    for nburn in range(0, box + 1):
+        for niter in range(1, box + 1):
+            this = Obj("AGibbs", _flagDecay=True, _nburn=Fraction(nburn), _niter=Fraction(niter))
+            lo, hi = [Fraction(-1)], [Fraction(2)]
+            env = {f.params[0]["d"]: Fraction(niter - 1), f.params[1]["d"]: lo, f.params[2]["d"]: hi,
+                   "THRESH_INF": Fraction(-10), "THRESH_SUP": Fraction(10)}
+            it = I(prog, this, env)
+            n += 1
+            try:
+                it.run(f.body)
+            except Return:
+                pass
+            except ZeroDivisionError:
+                bad = bad or (nburn, niter, "division by zero")
+                continue
+            if (lo[0], hi[0]) != (Fraction(-1), Fraction(2)) and bad is None:
+                bad = (nburn, niter, "bounds [-1, 2] become [%s, %s]" % (lo[0], hi[0]))
+    chk.extra["S13_pairs_evaluated"] = n
+    chk.ob("S13", "AGibbs::_getBoundsDecay leaves the bounds alone at the last iteration for every (nburn, niter) of [0,%d]x[1,%d]" % (box, box), f.loc(), bad is None,
+           detail=None if bad is None else "nburn = %d, niter = %d, iter = %d: %s - the values stored by the sampler are drawn within relaxed bounds and may lie "
+           "outside the interval of the datum" % (bad[0], bad[1], bad[1] - 1, bad[2]), key="S13|decay")
+
+
 def _ord(f, c):
     """ordinal of the call among the calls of the same callee in f (position-independent key)"""
     same = [x["i"] for x in f.calls() if x.get("callee") == c.get("callee")]
@@ -976,6 +1048,7 @@ def main(tier):
     s10(prog, chk)
     s11(prog, chk, seeded_classes)
     s12(prog, chk)
+    s13(prog, chk, tier)
     for k in sorted(an.assumed):
         chk.assumptions.append("draw %s in %s treated as seeded: %s" % (k[1], k[0], ASSUMED_SEEDED[k]))
     return chk.finish()
